@@ -113,7 +113,9 @@ def docs():
 
 
 TEXTS = [('lf', 'a\nb\nc\n'), ('crlf', 'a\r\nb\r\nc\r\n'), ('mixed', 'a\nb\r\nc\n\r\nd'), ('nofinal', 'a\nb'), ('empty', ''),
-         ('only-newline', '\n'), ('blank-lines', '\n\na\n\n'), ('utf8', 'zürich\n東京\n\U0001F511'), ('long', 'x' * 5000 + '\n' + 'y' * 3)]
+         ('only-newline', '\n'), ('blank-lines', '\n\na\n\n'), ('utf8', 'zürich\n東京\n\U0001F511'), ('long', 'x' * 5000 + '\n' + 'y' * 3),
+         # a carriage return inside a line is a character of the line (GnuPG 2.2.40 signs it so; vectors clear.*.doc.cr.txt.asc)
+         ('cr-midline', 'a\rb\nc\rd\n')]
 # texts signed through the cleartext framework whose lines end in blanks: RFC 4880 7.1 removes them before hashing
 TEXTS_BLANKS = [('blank-lf', 'a \nb\t\n'), ('blank-crlf', 'a \r\nb\t \r\nc'), ('blank-last', 'a\nb  '), ('blank-only', ' \r\n\t\r\n')]
 TEXTS_AMBIGUOUS = [('lone-cr', 'a\rb\r'), ('cr-cr-lf', 'a\r\r\nb')]
@@ -135,7 +137,7 @@ class Prop(object):
                    'subkey revocations hash primary key then subkey (RFC 4880bis clarification, GnuPG behaviour)',
                    'texts with lone CR are excluded from the must-agree alphabet (RFC 4880 is ambiguous about them)',
                    'RIPEMD-160 is not available in this cryptography build; Brainpool curves cannot be instantiated']
-    CASE_TIMEOUT = 300
+    CASE_TIMEOUT = 900
 
     def bound(self, tier):
         return {'signers': self._signers(tier), 'hashes': S.HASHES, 'scenarios': len(S.SCENARIOS),
@@ -599,6 +601,20 @@ class Prop(object):
                 o = {'sig': key.certify(uid, level=SignatureType.Casual_Cert, **kw), 'verify_subject': uid, 'verifier': kpub, 'ref_key': raw,
                      'ref_subject': {'key': tbody, 'uid': ustr.encode('utf-8')}, 'want_type': 0x12}
                 both(o, {'subject': 'uid', 'cls': name}, dict(case, only=name), 'certification of user id %r' % ustr[:40])
+            # a user id that is not valid UTF-8 (older producers wrote Latin-1): the certification is over the octets of the packet, which only a key
+            # loaded from elsewhere can carry
+            for i, uoct in enumerate(['Jos\xe9 Latin <jose@example.es>'.encode('latin-1'), b'\xff\xfe raw octets \x80', 'Gr\xfc\xdfe'.encode('latin-1')]):
+                name = 'latin%d' % i
+                if only and name != only:
+                    continue
+                tb2 = rkeys.public_packet(traw) + wire.packet(13, uoct) + wire.packet(2, rsig.make(
+                    traw, 0x13, 8, rsig.sp_created(S.SIG_T) + rsig.sp_issuer_fpr(rkeys.fingerprint(traw)) + wire.subpacket(27, b'\x03'), rsig.sp_issuer(rkeys.keyid(traw)),
+                    {'key': tbody, 'uid': uoct}))
+                tk2 = pgpy.PGPKey.from_blob(tb2)[0]
+                uid2 = tk2.userids[0]
+                o = {'sig': key.certify(uid2, level=SignatureType.Casual_Cert, **kw), 'verify_subject': uid2, 'verifier': kpub, 'ref_key': raw,
+                     'ref_subject': {'key': tbody, 'uid': uoct}, 'want_type': 0x12, '_keep': tk2}
+                both(o, {'subject': 'uid', 'cls': 'not-utf8'}, dict(case, only=name), 'certification of the imported user id %r' % uoct[:30])
             for i, img in enumerate((S.JPEG, S.JPEG2 + bytes(300), S.JPEG + bytes(9000))):
                 name = 'uat%d' % i
                 if only and name != only:
